@@ -243,6 +243,18 @@ def explore(ctx):
                "reqs": [], "rules": [], "unregistered": [], "ireqs": []}
     run_hist(ctx, base, rm_spec, [("iter", "h1"), ("iter", "h1")], {"scenario": "removable-on-archive"})
     ctx.count("history-removable-on-archive")
+    # the operator edits a node record while the daemon runs: the next pass must decide on the record as it is now
+    for change, expect_kept in ((["--min-avail=0"], True), (["--archive"], True)):
+        ed_spec = {"groups": [{"name": f"g{i}"} for i in (1, 2, 3)],
+                   "nodes": [{"name": "n1", "group": "g1", "stype": "F", "host": "h1", "active": True, "username": "u", "address": "addr", "min_avail_gb": 10 ** 7},
+                             {"name": "a2", "group": "g2", "stype": "A", "host": "h2", "active": True, "username": "u", "address": "addr"},
+                             {"name": "a3", "group": "g3", "stype": "A", "host": "h2", "active": True, "username": "u", "address": "addr"}],
+                   "acqs": ["acq1"], "files": [{"acq": "acq1", "name": "f1.dat", "size": 13}],
+                   "copies": [{"file": 0, "node": n, "has": "Y", "wants": "Y"} for n in ("n1", "a2", "a3")],
+                   "reqs": [], "rules": [], "unregistered": [], "ireqs": []}
+        run_hist(ctx, base, ed_spec, [("iter", "h1"), ("cli", "file clean", ["acq1/f1.dat", "--node=n1"]), ("cli", "node modify", ["n1"] + change), ("iter", "h1"), ("iter", "h1")],
+                 {"scenario": "node-record-edited"})
+        ctx.count("history-node-record-edited")
     # a released copy that is the source of a pending transfer stays (copy ids differ from file ids: the second file's copies come later)
     for wants in ("N", "M"):
         nodes = [{"name": f"n{i}", "group": f"g{i}", "stype": "A" if i != 1 or wants == "N" else "F", "host": "h1", "active": True, "username": "u", "address": "addr"} for i in (1, 2, 3)]
